@@ -101,7 +101,7 @@ CLAIMED = {
              "implementation-shaped maintenance model against it; conformance on a real pool of 4 interlinked objects "
              "(Instance link with comparison mode none, List with duplicates, Dict with coercing keys, metadata-tagged "
              "traits, lazily materialised containers) under 19 expressions: 20k enumerated single-operation cases + "
-             "seeded histories, every step judged by TLC. Session 4: the pool's set link is identity-compared, metadata values are defined-but-falsy.",
+             "seeded histories, every step judged by TLC. Session 4: the pool's set link is identity-compared, metadata values are defined-but-falsy. FilteredLinks.tla: a filtered link followed by more on an object whose matching link traits grow at run time.",
         note="Trusted: TLC; expressions limited to the catalogue (bound to the parser: compile_str must project to "
              "the catalogue paths); dispatch='same'; set items and add_trait not exercised. Known finding F8.",
         design="4/C08"),
